@@ -47,7 +47,7 @@ contract("msmart.crc8.calculate",
          params={"data": "bytes"},
          returns="crc8(data)",
          reveal=["crc8_step"],
-         loops={"0": {"define": {"crc_value": "crc8(data[:_i])"}}})
+         loops={"0": {"match": "data", "define": {"crc_value": "crc8(data[:_i])"}}})
 
 lemma("crc8.step_range",
       params={"c": "byte", "m": "byte"}, reveal=["crc8_step"],
